@@ -82,6 +82,20 @@ def big_tiles(thorough=False):
     return cs
 
 
+def tile_grids(thorough=False, n=3):
+    """tile grids whose tiles are one superblock wide / high (per-tile buffer shares, tile-boundary shortcuts) on screen content
+    with the screen-content tools forced on or auto-detected; 64x64 and 128x128 superblocks"""
+    cs = []
+    grids = ((2, 0), (0, 2), (2, 2)) if not thorough else [(c, r) for c in (0, 1, 2) for r in (0, 1, 2) if c or r]
+    for (tc, tr) in grids:
+        for scm in ((1,) if not thorough else (0, 1, 2)):
+            for sb in ((64,) if not thorough else (64, 128)):
+                for pr in ((8,) if not thorough else (8, 4)):
+                    cs.append(mk("tilegrid:tile_columns=%d,tile_rows=%d,scm=%d,sb=%d,preset=%d/256x256/screen" % (tc, tr, scm, sb, pr), 256, 256, n, "screen",
+                                 tile_columns=tc, tile_rows=tr, screen_content_mode=scm, super_block_size=sb, enc_mode=pr))
+    return cs
+
+
 def not_mult64(a):
     return int(a.get("w", 64)) % 64 != 0 or int(a.get("h", 64)) % 64 != 0
 
